@@ -368,6 +368,72 @@ VARIANTS_OF = {
 MODES = (822, 5321, 5322, 6531)
 
 
+# ---------------------------------------------------------------------------------------------------------------------------------------
+# giant inputs (2 GiB and more): the properties quantify over byte strings of any length, the model counts in unbounded Nat, the C code in
+# int / size_t / ptrdiff_t.  The harness builds prefix ++ pattern* ++ suffix from one 2 MiB file mapped over and over; the expected answer
+# comes from the property text (these inputs are far too long for the model driver).
+G31, G32 = 1 << 31, 1 << 32
+
+
+def giant_items(kind, tier):
+    """(op, predicate on the integer answer, what the property says) for the G ops of one family"""
+    it = []
+    rej = lambda rc: rc != 0
+    if kind == "local-ascii":
+        for fn in ("L822", "L5321", "L5322"):
+            it.append(("G %s - 28 - %d" % (fn, G31), rej, "a local part made of 2^31 '(' is not valid in any mode"))
+            it.append(("G %s 616263 28 - %d" % (fn, G32 + 3), rej, "'abc' followed by 2^32 '(' is not a valid local part"))
+            it.append(("G %s 616263 ff - %d" % (fn, G32 + 3), rej, "'abc' followed by 2^32 octets 0xff is not a valid local part"))
+            it.append(("G %s 61 2e - %d" % (fn, G31 + 1), rej, "'a' followed by 2^31 dots is not a valid local part"))
+            if tier != "quick":
+                it.append(("G %s - 61 - %d" % (fn, G31), lambda rc: rc == 0, "an atom of 2^31 letters is a valid local part (the 64-octet limit belongs to the address level)"))
+                it.append(("G %s - 61 28 %d" % (fn, G32 + 2), rej, "an atom of 2^32+1 letters followed by '(' is not a valid local part"))
+    if kind == "local-6531":
+        it.append(("G L6531 - 28 - %d" % G31, rej, "a local part made of 2^31 '(' is not valid in mode 6531"))
+        it.append(("G L6531 616263 ff - %d" % (G32 + 3), rej, "'abc' followed by 2^32 octets 0xff is not well-formed UTF-8"))
+        it.append(("G L6531 616263 28 - %d" % (G32 + 3), rej, "'abc' followed by 2^32 '(' is not a valid local part"))
+        it.append(("G L6531 c3a9 c3 - %d" % (G31 + 2), rej, "U+00E9 followed by 2^31 lead bytes 0xc3 is not well-formed UTF-8"))
+        if tier != "quick":
+            it.append(("G L6531 - 61 - %d" % G31, lambda rc: rc == 0, "an atom of 2^31 letters is a valid local part in mode 6531"))
+            it.append(("G L6531 - c3a9 - %d" % G32, lambda rc: rc == 0, "an atom of 2^31 characters U+00E9 is a valid local part in mode 6531"))
+            it.append(("G L6531 - 61 ff %d" % (G32 + 2), rej, "2^32+1 letters followed by the octet 0xff are not well-formed UTF-8"))
+    if kind == "email-long-local":
+        for m in ((5321,) if tier == "quick" else MODES):
+            it.append(("G E%d - 61 40622e636f6d %d" % (m, G32 - 16 + 6), lambda rc: rc == -5, "a local part of 2^32-16 octets is 'too long' (and nothing else)"))
+            it.append(("G E%d - 61 40622e636f6d %d" % (m, G31 + 6), lambda rc: rc == -5, "a local part of 2^31 octets is 'too long' (and nothing else)"))
+    if kind == "domain":
+        it.append(("G D - 612e - %d" % G31, lambda rc: rc == -21, "a name of 2^31 octets is too long"))
+        it.append(("G D 612e 612e 61 %d" % (G32 + 201), lambda rc: rc == -21, "a name of 2^32+201 octets is too long (its length modulo 2^32 is not what counts)"))
+    if kind == "special" and tier != "quick":
+        it.append(("G S 612e 612e 74657374 %d" % (G32 + 4), lambda rc: rc == 1, "a name of 2^31 labels 'a' followed by the label 'test' is reserved"))
+        it.append(("G S 74657374 2e61 - %d" % (G32 + 4), lambda rc: rc == 0, "'test' followed by 2^31 labels 'a' is not reserved"))
+    return it
+
+
+def run_giant(ctx, kinds, variant="default"):
+    items = [x for k in kinds for x in giant_items(k, ctx.tier)]
+    if not items:
+        return
+    c, _ = ctx.run("giant", variant, [x[0] for x in items])
+    st = ctx.streams.setdefault("giant@" + variant, dict(ops=0, k_mismatch=0))
+    for (op, pred, what), ln in zip(items, c):
+        st["ops"] += 1
+        ctx.evals += 1
+        ans = (ln or "").split(" ")
+        if len(ans) < 2 or ans[1] == "NOMEM":
+            ctx.note("giant input could not be mapped: " + op)
+            continue
+        if ans[1] == "FAULT":
+            continue                              # reported as a crash of the library with this op
+        ctx.nontrivial.add(op)
+        try:
+            ok = pred(int(ans[1]))
+        except ValueError:
+            ok = False
+        if not ok:
+            ctx.S("giant input (prefix, repeated pattern, suffix, total length): " + what, op=op, variant=variant, impl=ln)
+
+
 def accept_bit(line):
     """projection 'decision' for L / D ops: rc == 0"""
     parts = line.split(" ")
@@ -376,6 +442,7 @@ def accept_bit(line):
 
 # ===================================================================== C02
 def c02(ctx):
+    run_giant(ctx, ["local-ascii"])
     strs = gen.local_strings(ctx.tier, ctx.rng, utf8=False)
     strs = list(dict.fromkeys(strs))
     for m in (822, 5321, 5322):
@@ -465,6 +532,7 @@ RULES["C02"] = "distinct (mode, local part) pairs whose result is not EEAV_LPART
 
 # ===================================================================== C03
 def c03(ctx):
+    run_giant(ctx, ["local-6531"])
     strs = gen.local_strings(ctx.tier, ctx.rng, utf8=True)
     strs += gen.utf8_in_context(gen.utf8_sequences(ctx.tier, ctx.rng))
     strs = list(dict.fromkeys(strs))
@@ -551,6 +619,7 @@ RULES["C03"] = "distinct local parts not rejected as empty; all 1-2 byte sequenc
 
 # ===================================================================== C04
 def c04(ctx):
+    run_giant(ctx, ["domain"])
     strs = list(dict.fromkeys(gen.domain_strings(ctx.tier, ctx.rng)))
     for v, us in (("default", 0), ("underscore", 1)):
         ops = ["D %s 00" % hx(s) for s in strs]
@@ -937,6 +1006,7 @@ RULES["C08"] = "all 2^11 masks x every result code -35..12 through a caller-inst
 
 # ===================================================================== C09
 def c09(ctx):
+    run_giant(ctx, ["special"])
     doms = list(dict.fromkeys(gen.special_domains(ctx.tier, ctx.rng)))
     c = ctx.K("special", "default", ["S %s" % hx(d) for d in doms], nontrivial=lambda op, ln: True)
     sp = ctx.spec(["sS %s" % hx(d) for d in doms])
@@ -1115,6 +1185,7 @@ def split_addr(s):
 
 
 def c15(ctx):
+    run_giant(ctx, ["email-long-local"])
     strs = diag_corpus(ctx)
     tbl = {r[0] for r in table_names(ctx)}
     seen_codes = set()
@@ -2117,6 +2188,7 @@ ASSUME["C14"] = ["libidn2 itself is thread-safe (not instrumented)"]
 # ===================================================================== C06
 def c06(ctx):
     rng = ctx.rng
+    run_giant(ctx, ["local-ascii", "local-6531", "domain", "special"])
     # (1) every stream under ASan+UBSan, inputs in exact-size heap blocks, eav_t in 0xA5-filled heap memory
     loc = gen.local_strings("quick", rng, utf8=True)[:: (5 if ctx.tier == "quick" else 1)]
     dom = gen.domain_strings("quick", rng)[:: (6 if ctx.tier == "quick" else 1)]
